@@ -951,7 +951,12 @@ class _Env(dict):
 def model_env(model):
     """var name -> Fraction for every variable ratfn knows (algebraic values approximated)."""
     env = _Env()
-    for name, zv in list(ratfn._Z3VARS.items()):
+    pairs = list(ratfn._Z3VARS.items())
+    known = set(nm for nm, _ in pairs)
+    for d in model.decls():
+        if d.arity() == 0 and d.name() not in known and d.range() == z3.RealSort():
+            pairs.append((d.name(), d()))
+    for name, zv in pairs:
         v = model.eval(zv, model_completion=True)
         v = z3.simplify(v)
         if z3.is_rational_value(v):
